@@ -74,7 +74,12 @@ def main():
             r = sh(cmd, env=env)
             viol = re.findall(r"VIOLATION property=\S+ replay=\S+( no-failing-input-found)?\n\s+obligation: (.*)", r.stdout)
             hit = [v for v in viol if re.search(m["expect"], v[1])]
-            if r.returncode == 1 and hit:
+            if m.get("expect_pass"):
+                # a change under which the property still holds: the check must stay quiet (no false alarm)
+                status = "CAUGHT" if r.returncode == 0 else ("FALSE-ALARM" if r.returncode == 1 else "UNDECIDED")
+                if status == "CAUGHT":
+                    viol = [("", "(no alarm, as required)")]
+            elif r.returncode == 1 and hit:
                 status = "CAUGHT"
             elif r.returncode == 1:
                 status = "CAUGHT-OTHER-OBLIGATION"
